@@ -39,6 +39,10 @@ type Case struct {
 	// AggLimits: stores run with the production default aggregation limits (never reached
 	// by these corpora) instead of "no limits"
 	AggLimits bool `json:"agg_limits,omitempty"`
+	// Wide: that many more documents (synthetic, spread over all fractions and shards), each with
+	// its own 60..120-byte value of the field uniq: a group-by field whose values fill several
+	// blocks of a sealed fraction's token table
+	Wide gen.Synth `json:"wide"`
 }
 
 func genDoc(t *rapid.T, i int, seen map[model.ID]bool, spread uint64) model.Doc {
@@ -74,6 +78,9 @@ func genCase(t *rapid.T) Case {
 		c.Corpus = append(c.Corpus, genDoc(t, i, seen, spread))
 	}
 	c.AggLimits = rapid.IntRange(0, 2).Draw(t, "agglimits") > 0
+	if rapid.IntRange(0, 9).Draw(t, "wide") == 9 {
+		c.Wide = gen.Synth{N: rapid.IntRange(300, 1500).Draw(t, "widen"), PerMID: 3, UniqLen: rapid.IntRange(60, 120).Draw(t, "widelen"), Dur: true}
+	}
 	c.K = rapid.IntRange(1, 5).Draw(t, "k")
 	c.LastActive = rapid.Bool().Draw(t, "lastactive")
 	for i := 0; i < n; i++ {
@@ -92,6 +99,13 @@ func genCase(t *rapid.T) Case {
 			r.R.Q = model.All()
 		}
 		r.Aggs = gen.AggSpecs(t, 3)
+		if c.Wide.N > 0 && rapid.IntRange(0, 3).Draw(t, "bywide") > 0 {
+			a := model.AggSpec{Func: rapid.SampledFrom([]string{"count", "unique", "sum", "max", "avg"}).Draw(t, "widefunc"), GroupBy: "uniq"}
+			if a.Func != "count" && a.Func != "unique" {
+				a.Field = "dur"
+			}
+			r.Aggs = append(r.Aggs, a)
+		}
 		if len(r.Aggs) == 0 {
 			r.Aggs = []model.AggSpec{{Func: "sum", Field: "dur", GroupBy: "svc"}}
 		}
@@ -151,6 +165,20 @@ func checkQPR(what string, qpr *seq.QPR, corpus model.Corpus, rq *Req, text stri
 
 func runCase(c Case) (evid.Result, error) {
 	res := evid.Result{}
+	if c.Wide.N > 0 {
+		c.Corpus = append(model.Corpus{}, c.Corpus...)
+		c.FracOf = append([]int{}, c.FracOf...)
+		c.ShardOf = append([]int{}, c.ShardOf...)
+		for i, d := range c.Wide.Docs() {
+			d.ID.RID |= 1 << 40 // distinct from the drawn ids
+			c.Corpus = append(c.Corpus, d)
+			c.FracOf = append(c.FracOf, i%c.K)
+			if c.Shards > 0 {
+				c.ShardOf = append(c.ShardOf, i%c.Shards)
+			}
+		}
+		res.Labels = append(res.Labels, "group-by-field-with-hundreds-of-long-values")
+	}
 	dir := evid.ScratchDir("c06")
 	st, err := harness.OpenStore(dir, harness.StoreOpts{AggLimits: c.AggLimits})
 	if err != nil {
